@@ -500,6 +500,33 @@ func inprocHistory(hno int, seq []symbol, nctrl int, withRemoved bool, rnd *rand
 		if twoConns && rnd.Intn(3) == 0 {
 			c = conns[1]
 		}
+		if sym.Kind == "admin" {
+			// an administrator removes the first stored controller or replaces its key (directly in the database, as the
+			// /pairings endpoint does) BETWEEN two messages of the history: from here on "the key stored for the claimed name"
+			// is another one, and the old identity is what the removed-controller finish is signed with
+			if len(w.ctrls) > 0 {
+				victim := w.ctrls[0]
+				if sym.Var == "replace-key" {
+					nw := refctl.NewIdentity(victim.ID, rnd)
+					database.SaveEntity(db.NewEntity(nw.ID, nw.LTPK, nil))
+					w.ctrls[0] = nw
+				} else {
+					database.DeleteEntity(db.NewEntity(victim.ID, nil, nil))
+					w.ctrls = w.ctrls[1:]
+				}
+				w.removed = victim
+				w.otherConnGood = nil
+				for _, cc := range conns {
+					cc.p.lastGood, cc.p.pending, cc.p.stale = nil, nil, nil
+					if cc.p.cur.open {
+						prebuild(w, cc.p)
+					}
+				}
+				run.Count("administrative_changes_between_messages", 1)
+			}
+			trace = append(trace, map[string]interface{}{"step": step, "administrator": sym.Var})
+			continue
+		}
 		var msg []byte
 		genuine := false
 		var priv, pub [32]byte
@@ -756,6 +783,23 @@ func main() {
 			}
 		}
 	}
+	// the pairing set changes between two exchanges of ONE connection: whatever the connection remembers of the first
+	// exchange (a looked-up entity, a verified name) must not decide the second
+	for _, first := range []string{"genuine", "wrong-key-signature", "stale-material", "known-name-empty-sig", "sealed-zero-key", "unknown-name"} {
+		for _, adm := range []string{"remove-stored", "replace-key"} {
+			for _, s := range alphabet {
+				if s.Kind != "finish" {
+					continue
+				}
+				if !r.Thorough() && s.Var != "removed-controller" && s.Var != "genuine" && s.Var != "replay-earlier-exchange" && s.Var != "wrong-key-signature" {
+					continue
+				}
+				do([]symbol{{"start", "valid"}, {"finish", first}, {"admin", adm}, {"start", "valid"}, s}, 1, false, false)
+				do([]symbol{{"start", "valid"}, {"finish", first}, {"admin", adm}, {"start", "valid"}, s}, 2, false, false)
+				do([]symbol{{"start", "valid"}, {"admin", adm}, s}, 1, false, false)
+			}
+		}
+	}
 	// persistence: K failed exchanges on one connection (attempt counters, lock-outs and what they leave behind),
 	// then every kind of finish once more, and a genuine one
 	reps := []int{3, 100}
@@ -867,6 +911,7 @@ func main() {
 
 	r.Floor("messages", int(r.Counter("messages")), 5000)
 	r.Floor("verified_by_genuine_finish", int(r.Counter("verified_by_genuine_finish")), 50)
+	r.Floor("administrative_changes_between_messages", int(r.Counter("administrative_changes_between_messages")), 40)
 	r.Floor("finishes_naming_an_alias_of_a_stored_name", int(r.Counter("finishes_naming_an_alias_of_a_stored_name")), 150)
 	r.Floor("alias kinds", r.DistinctN("alias_kind"), 10)
 	r.Floor("forged_finishes_refused+violations", int(r.Counter("forged_finishes_refused"))+r.ViolationCount(), 1000)
